@@ -11,6 +11,7 @@ mod util;
 mod clock;
 mod conv;
 mod m_tcp;
+mod m_tls;
 mod m_db;
 mod m_filter;
 
@@ -31,6 +32,7 @@ fn main() {
         "filter" => m_filter::run(&mut input, &mut out, rest),
         "db" => m_db::run(&mut input, &mut out, rest),
         "tcp" => m_tcp::run(&mut input, &mut out, rest),
+        "tls" => m_tls::run(&mut input, &mut out, rest),
         m => {
             eprintln!("unknown mode {m}");
             std::process::exit(2);
